@@ -93,14 +93,32 @@ type world struct {
 	predOK  bool
 }
 
-func newWorld(limit, lpa int) *world {
-	now := uint64(time.Now().Unix())
-	launch := now - 40
-	launch -= launch % 10
+// the genesis object is cached per launch time (genesis.NewCustomNet opens a throw-away in-memory leveldb on every
+// call and never closes it)
+var (
+	geneMu    sync.Mutex
+	geneCache = map[uint64]*genesis.Genesis{}
+)
+
+func genesisFor(launch uint64) *genesis.Genesis {
+	geneMu.Lock()
+	defer geneMu.Unlock()
+	if g, ok := geneCache[launch]; ok {
+		return g
+	}
 	g, err := testchain.CreateGenesis(genesis.DevConfig{ForkConfig: &forkCfg, LaunchTime: launch}, 10, 180, 180)
 	if err != nil {
 		hx.Fatal("genesis: %v", err)
 	}
+	geneCache[launch] = g
+	return g
+}
+
+func newWorld(limit, lpa int) *world {
+	now := uint64(time.Now().Unix())
+	launch := now - 40
+	launch -= launch % 10
+	g := genesisFor(launch)
 	c, err := testchain.NewIntegrationTestChainWithGenesis(g, &forkCfg, 180)
 	if err != nil {
 		hx.Fatal("chain: %v", err)
@@ -121,7 +139,11 @@ func newWorld(limit, lpa int) *world {
 	return &world{chain: c, pool: p, made: time.Now(), limit: limit}
 }
 
-func (w *world) close() { w.pool.Close() }
+func (w *world) close() {
+	w.pool.Close()
+	_ = w.chain.LogDB().Close()
+	_ = w.chain.Database().Close()
+}
 
 func (w *world) buildTx(op *Op) *tx.Transaction {
 	if op.Redeleg > 0 && len(w.gen) > 0 {
